@@ -328,3 +328,60 @@ Proof.
   - reflexivity.
   - exists 42. split; [reflexivity|]. split; [reflexivity | discriminate].
 Qed.
+
+(* ---- C09 in the heading context ---- *)
+From MD Require Import Lemmas.InlineEsc.
+
+Section HeadEsc.
+Context (cfg : pcfg) (rf cf lt : str -> str).
+Context (segs : list seg) (Hwf : wf segs).
+Context (Ht : head_ok (src_of segs)).
+Context (H13 : mem_z CR (src_of segs) = false) (H0 : mem_z NUL (src_of segs) = false).
+Context (bpre bpost : list str).
+Context (HRb : c_rules (p_block cfg) = bpre ++ nm_heading :: bpost).
+Context (Hbpre : Forall (fun n => str_eqb n nm_heading = false /\ str_eqb n nm_paragraph = false /\ str_eqb n nm_lheading = false) bpre).
+Context (Hbnest : 0 < c_maxNesting (p_block cfg)).
+Context (Hcore : p_core cfg = [n_normalize; n_block; n_inline; n_text_join]).
+Context (ipre ipost : list str).
+Context (HRi : ic_rules (p_inline cfg) = ipre ++ n_escape :: ipost).
+Context (Hipre : Forall (fun n => n = n_text \/ n = n_linkify \/ n = n_newline) ipre).
+Context (Hitext : In n_text ipre).
+Context (Hlink : ic_linkify (p_inline cfg) = false).
+Context (Hinest : 0 < ic_maxNesting (p_inline cfg)).
+
+(* render("# " esc(t) LF) = <h1> escapeHtml(t) </h1> LF *)
+Theorem render_heading_esc env :
+  render_md cfg rf cf lt ((35 :: 32 :: src_of segs) ++ [10]) env
+  = Ok ([60; 104; 49; 62] ++ escape_html (text_of segs) ++ [60; 47; 104; 49; 62; 10], env).
+Proof.
+  unfold render_md.
+  rewrite (parse_heading_line cfg rf cf lt (src_of segs) Ht H13 H0 bpre bpost HRb Hbpre Hbnest Hcore env).
+  unfold inline_parse.
+  destruct (inline_parse_esc_with (p_inline cfg) rf cf lt (ifs (p_inline cfg) rf cf lt (inline_depth (p_inline cfg))) ipre ipost HRi Hipre Hitext Hlink Hinest segs env Hwf)
+    as (toks & IP & CT & TL).
+  rewrite IP. cbn [bind].
+  destruct (join_children_textlike toks TL) as [(-> & ->) | (p & -> & Hp & Cp)].
+  - exfalso. destruct Ht as [[(c0 & body & E & _) _] _ _]. unfold contents in CT. cbn in CT.
+    destruct segs as [|[r|c] l]; [discriminate E| |].
+    + destruct Hwf as (Hne & _). unfold text_of in CT. cbn in CT. destruct r; [contradiction Hne; reflexivity | discriminate CT].
+    + unfold text_of in CT. cbn in CT. discriminate CT.
+  - unfold render. cbn [render_list].
+    change (str_eqb (ttype h_open) s_inline) with false. cbv iota.
+    unfold render_one at 1. cbn [ttype h_open map_tok set_map set_markup set_level set_block new_token].
+    repeat match goal with |- context [str_eqb ?a ?b] =>
+      match a with [104; 101; 97; 100; 105; 110; 103; 95; 111; 112; 101; 110] => change (str_eqb a b) with false end end.
+    cbv iota. cbn [bind].
+    match goal with |- context [str_eqb (ttype (set_children ?t ?c)) s_inline] => change (str_eqb (ttype (set_children t c)) s_inline) with true end.
+    cbv iota.
+    match goal with |- context [tchildren (set_children ?t (Some ?c))] => change (tchildren (set_children t (Some c))) with (Some c) end.
+    cbv iota. cbn [render_inline_list hd_error]. rewrite (render_text_token _ _ p None Hp). cbn [bind render_inline_list app].
+    change (str_eqb (ttype h_close) s_inline) with false. cbv iota.
+    unfold render_one at 1. cbn [ttype h_close set_markup set_level set_block new_token].
+    repeat match goal with |- context [str_eqb ?a ?b] =>
+      match a with [104; 101; 97; 100; 105; 110; 103; 95; 99; 108; 111; 115; 101] => change (str_eqb a b) with false end end.
+    cbv iota. cbn [bind render_list app].
+    rewrite Cp, CT. unfold render_token, h_open, h_close, map_tok. cbn. rewrite ?app_nil_r.
+    destruct (o_xhtml (p_render cfg)); cbn; rewrite ?app_nil_r, <- ?app_assoc; reflexivity.
+Qed.
+
+End HeadEsc.
